@@ -33,10 +33,23 @@ Inductive phys_spec (g : glossary) (unit : option string) (v : var) : option bnd
 | PS_none : forall s k e, vphys v = None -> unit = Some s -> vgloss v = Some k -> first_entry g k s e ->
             glow e = None -> gup e = None -> phys_spec g unit v None.
 
+(* standard bounds of element i: `@Bounds x in ...` holds for every element, `@Bounds x[i] in ...` for element i, nothing else *)
+Definition elem_bounds_spec (v : var) (i : nat) (r : option bnd) : Prop :=
+  (forall b, vbounds v = Some b -> r = Some b) /\
+  (forall b, In (i, b) (vebounds v) -> r = Some b) /\
+  (vbounds v = None -> (forall b, ~ In (i, b) (vebounds v)) -> r = None).
+
+(* what the front-end guarantees on the bounds declarations of an accepted variable *)
+Definition bounds_wf (v : var) : Prop :=
+  (vbounds v = None \/ vebounds v = []) /\ NoDup (map fst (vebounds v)) /\ vephys v = [] /\
+  (forall i b, In (i, b) (vebounds v) -> i < vsize v).
+
 (* one exported variable is faithful to its declaration *)
 Definition faithful_var (g : glossary) (unit : option string) (v : var) (m : vmeta) : Prop :=
   ext_name_spec v (m_ext m) /\ m_code m = type_code (vty v) /\ m_size m = vsize v /\
-  m_bounds m = vbounds v /\ phys_spec g unit v (m_phys m) /\ m_def m = vdefault v.
+  length (m_bounds m) = vsize v /\ (forall i, i < vsize v -> elem_bounds_spec v i (nth i (m_bounds m) None)) /\
+  length (m_phys m) = vsize v /\ (forall i, i < vsize v -> phys_spec g unit v (nth i (m_phys m) None)) /\
+  m_def m = vdefault v.
 
 (* everything but the bounds (holds whatever the variant) *)
 Definition faithful_var_names (v : var) (m : vmeta) : Prop :=
@@ -46,6 +59,8 @@ Definition hyps_spec (declared exported : list hyp) : Prop :=
   NoDup exported /\ (forall h, In h exported <-> In h declared) /\
   StronglySorted (fun a b => hyp_rank a < hyp_rank b) exported.   (* order of the enumeration *)
 
+(* d: the declaration as the DSL elaborates it (dsl_mps / dsl_svs / dsl_params: what the DSL and the brick declare on top of
+   the user's lines) *)
 Definition faithful (g : glossary) (d : decl) (t : table) : Prop :=
   match dkind d with
   | MaterialProperty =>
@@ -54,12 +69,32 @@ Definition faithful (g : glossary) (d : decl) (t : table) : Prop :=
       Forall2 (faithful_var g (dunit d)) (dparams d) (t_params t)
   | Behaviour =>
       t_kind t = 1%Z /\ hyps_spec (dhyps d) (t_hyps t) /\
-      Forall2 (faithful_var g (dunit d)) (dmps d) (t_mps t) /\
-      Forall2 (faithful_var g (dunit d)) (dsvs d ++ dasvs d) (t_isvs t) /\
+      Forall2 (faithful_var g (dunit d)) (dsl_mps (ddsl d) (dmps d)) (t_mps t) /\
+      Forall2 (faithful_var g (dunit d)) (dsl_svs (ddsl d) (dsvs d) ++ dasvs d) (t_isvs t) /\
       Forall2 (faithful_var g (dunit d)) (desvs d) (t_esvs t) /\
-      (exists l, t_params t = l ++ map (meta repaired g (dunit d) true) builtin_parameters /\
-                 Forall2 (faithful_var g (dunit d)) (dparams d) l)
+      Forall2 (faithful_var g (dunit d)) (dsl_params (ddsl d) (dparams d)) (t_params t)
   end /\
   t_unit t = match dunit d with Some s => s | None => "" end.
 
 Definition sum_sizes (l : list var) : nat := fold_right (fun v a => vsize v + a) 0 l.
+
+(* l1 is l2 with some elements removed, order kept *)
+Inductive sublist {A : Type} : list A -> list A -> Prop :=
+| SL_nil : forall l, sublist [] l
+| SL_keep : forall a l1 l2, sublist l1 l2 -> sublist (a :: l1) (a :: l2)
+| SL_skip : forall a l1 l2, sublist l1 l2 -> sublist l1 (a :: l2).
+
+(* the variable is declared for hypothesis h *)
+Definition declared_for_spec (h : hyp) (v : var) : Prop := vhyps v = [] \/ In h (vhyps v).
+
+(* order of decimals *)
+Definition dec_le (a b : dec) : Prop :=
+  let m := Z.min (expo a) (expo b) in (mant a * 10 ^ (expo a - m) <= mant b * 10 ^ (expo b - m))%Z.
+
+(* bounds b lie within physical bounds p, and have every side p has *)
+Definition within (b p : bnd) : Prop :=
+  match p with
+  | Lower pl => match b with Lower l | Both l _ => dec_le pl l | Upper _ => False end
+  | Upper pu => match b with Upper u | Both _ u => dec_le u pu | Lower _ => False end
+  | Both pl pu => match b with Both l u => dec_le pl l /\ dec_le u pu | _ => False end
+  end.
